@@ -53,6 +53,13 @@ int EvalExpression::run_nested(
 
     if (token_type == TOKEN_EOL || token_type == TOKEN_EOF)
     {
+      // The line ends inside a parenthesis.
+      if (is_paren == true)
+      {
+        print_error_unexp(asm_context, token);
+        return -1;
+      }
+
       tokens_push(asm_context, token, token_type);
       break;
     }
